@@ -897,6 +897,13 @@ pub fn corpus_sequences(max_len: usize) -> Vec<ManifestSet> {
             vars: vec![("v".into(), expr("local"))],
             ..Default::default()
         }),
+        // a block that binds one name twice: the later binding replaces the earlier
+        Stmt::Build(BuildStmt {
+            outs: vec![lit("dup")],
+            rule: "r2".into(),
+            vars: vec![("v".into(), expr("first")), ("w".into(), expr("mid")), ("v".into(), expr("second$w"))],
+            ..Default::default()
+        }),
         Stmt::Default(vec![lit("x")]),
         Stmt::Default(vec![lit("z"), expr("q$v")]),
         Stmt::Pool("pp".into(), Some(3)),
@@ -968,7 +975,9 @@ pub fn corpus_sequences(max_len: usize) -> Vec<ManifestSet> {
 
 /// C11: binding slots around one build statement.  `assign[i]` selects the
 /// expression of slot i (0 = slot absent).
-pub const C11_EXPRS: &[&str] = &["L", "$x", "$y", "a$x", "${y}b", "", "$in", "$out"];
+/// The two variables are called `outd` and `inc`: names that merely begin like
+/// the implicit `$out` / `$in` must not be taken for them.
+pub const C11_EXPRS: &[&str] = &["L", "$outd", "$inc", "a$outd", "${inc}b", "", "$in", "$out"];
 pub const C11_SLOTS: usize = 12;
 
 #[derive(Debug, Clone, Copy, PartialEq, Eq)]
@@ -990,14 +999,14 @@ pub fn c11_manifest(assign: &[usize], placement: Placement) -> ManifestSet {
     let mut pre: Vec<Stmt> = Vec::new();
     // slots 0,1: file-level x, y before everything
     if let Some(v) = e(0) {
-        pre.push(Stmt::Binding("x".into(), v));
+        pre.push(Stmt::Binding("outd".into(), v));
     }
     if let Some(v) = e(1) {
-        pre.push(Stmt::Binding("y".into(), v));
+        pre.push(Stmt::Binding("inc".into(), v));
     }
     // slot 2: x redefined (before the rule, after y)
     if let Some(v) = e(2) {
-        pre.push(Stmt::Binding("x".into(), v));
+        pre.push(Stmt::Binding("outd".into(), v));
     }
     // slots 3,4: rule command / description
     let mut rule_vars = vec![(
@@ -1010,10 +1019,10 @@ pub fn c11_manifest(assign: &[usize], placement: Placement) -> ManifestSet {
     // slots 5,6,7: build-block x, y, description
     let mut bvars = Vec::new();
     if let Some(v) = e(5) {
-        bvars.push(("x".to_string(), v));
+        bvars.push(("outd".to_string(), v));
     }
     if let Some(v) = e(6) {
-        bvars.push(("y".to_string(), v));
+        bvars.push(("inc".to_string(), v));
     }
     if let Some(v) = e(7) {
         bvars.push(("description".to_string(), v));
@@ -1043,7 +1052,7 @@ pub fn c11_manifest(assign: &[usize], placement: Placement) -> ManifestSet {
     // slot 9: file-level x after the statement
     let mut post = Vec::new();
     if let Some(v) = e(9) {
-        post.push(Stmt::Binding("x".into(), v));
+        post.push(Stmt::Binding("outd".into(), v));
     }
     // slot 10: y defined inside the child file (visible afterwards only for
     // include); always followed by a probe build in the parent.
@@ -1052,7 +1061,7 @@ pub fn c11_manifest(assign: &[usize], placement: Placement) -> ManifestSet {
         rule: "show".into(),
         ..Default::default()
     });
-    let show = Stmt::Rule("show".into(), vec![("command".into(), expr("x=$x y=$y"))]);
+    let show = Stmt::Rule("show".into(), vec![("command".into(), expr("x=$outd y=$inc"))]);
     match placement {
         Placement::Main => {
             let mut stmts = pre;
@@ -1060,7 +1069,7 @@ pub fn c11_manifest(assign: &[usize], placement: Placement) -> ManifestSet {
             stmts.push(build);
             stmts.extend(post);
             if let Some(v) = e(10) {
-                stmts.push(Stmt::Binding("y".into(), v));
+                stmts.push(Stmt::Binding("inc".into(), v));
             }
             stmts.push(show);
             stmts.push(probe);
@@ -1072,7 +1081,7 @@ pub fn c11_manifest(assign: &[usize], placement: Placement) -> ManifestSet {
             let mut child = vec![rule, build];
             child.extend(post);
             if let Some(v) = e(10) {
-                child.push(Stmt::Binding("y".into(), v));
+                child.push(Stmt::Binding("inc".into(), v));
             }
             let mut stmts = pre;
             stmts.push(if placement == Placement::Included {
